@@ -186,7 +186,10 @@ def mutate_listing(rng, lst):
         elif op == 6:    # add a sibling / child
             base = bytes.fromhex(e["p"])
             if isdir:
-                np = base + b"/" + name(rng, False)
+                nm = name(rng, False)
+                if nm in (b".", b"..") or b"/" in nm:
+                    continue
+                np = base + b"/" + nm
             else:
                 np = base + rng.choice([b"-", b".", b"0", b" x", b"z"])
             if b"/" not in np[len(base) + 1:] and hx(np) not in [x["p"] for x in ents] and not np.endswith(b"/"):
@@ -320,7 +323,10 @@ def mutate_disk_tree(rng, tree, n_edits=None):
         elif op == 6:   # add
             base = bytes.fromhex(p)
             if e["t"] == "dir":
-                np = base + b"/" + name(rng, False)
+                nm = name(rng, False)
+                if nm in (b".", b"..") or b"/" in nm:
+                    continue
+                np = base + b"/" + nm
             else:
                 np = base + rng.choice([b"-", b".", b"0", b" x", b"z", b"!"])
             if hx(np) not in {x["p"] for x in ents} and b"/" not in np[len(base) + 1:] and len(np.split(b"/")[-1]) <= 255:
